@@ -39,6 +39,7 @@ var (
 	c09big190      = core.RegCounter("c09.batches_with_190_or_more_entries")
 	c09empty       = core.RegCounter("c09.empty_batches_verified")
 	c09again       = core.RegCounter("c09.batches_finished_again_without_reset")
+	c09grown       = core.RegCounter("c09.batches_grown_after_a_verdict_and_finished_again")
 	c09reset       = core.RegCounter("c09.verifier_reused_after_reset")
 	c09force       = core.RegCounter("c09.force_no_expansion")
 	c09batchOnly   = core.RegCounter("c09.verify_batch_only_calls")
@@ -509,7 +510,7 @@ func c09Batch(r *core.Run, e *Env, nd *c09Node, txs []c09Tx, chunk []int, decide
 	all := true
 	anyCofless := false
 	hasCancelP, hasCancelM := false, false
-	for _, ti := range chunk {
+	addEntry := func(ti int) {
 		x := txs[ti]
 		path := basePath
 		if basePath == 4 {
@@ -545,6 +546,9 @@ func c09Batch(r *core.Run, e *Env, nd *c09Node, txs []c09Tx, chunk []int, decide
 		hasCancelP = hasCancelP || x.kind == "cancelling+"
 		hasCancelM = hasCancelM || x.kind == "cancelling-"
 		r.Count(c09entries)
+	}
+	for _, ti := range chunk {
+		addEntry(ti)
 	}
 	n := len(chunk)
 	if n == 0 {
@@ -664,6 +668,26 @@ func c09Batch(r *core.Run, e *Env, nd *c09Node, txs []c09Tx, chunk []int, decide
 			doV()
 		} else {
 			doBO()
+		}
+	}
+	// ... and it can grow: entries added after a verdict belong to the next verdict like any others
+	if n > 0 && n < 80 && t.W(4) == 0 && len(r.Main.Fails()) == 0 {
+		chunk = append([]int(nil), chunk...)
+		for k := 1 + t.W(3); k > 0; k-- {
+			ti := t.W(len(txs))
+			chunk = append(chunk, ti)
+			addEntry(ti)
+		}
+		n = len(chunk)
+		r.Count(c09grown)
+		r.Ev("node%d batch grown to n=%d entries=%v", ni, n, chunk)
+		if t.W(2) == 0 {
+			doV()
+		} else {
+			doBO()
+			if len(r.Main.Fails()) == 0 {
+				doV()
+			}
 		}
 	}
 }
